@@ -1,12 +1,14 @@
 """C03 — every coefficient/splitting kernel is one well-defined distribution."""
 
+import math
+
 import numpy as np
 import scipy.integrate
 
 from .. import callsites, common, corr_kernels, translate
 from ..common import Driver
 
-XS = (0.05, 0.3, 0.6, 0.9)
+XS = (1e-4, 1e-3, 0.05, 0.3, 0.6, 0.9)  # small x too: a z-dependent piece slipped into a local part shows as a log(x) drift
 
 
 def classify(sn, ln):
@@ -19,8 +21,16 @@ def classify(sn, ln):
 
 def parts_at(rsl, x):
     """(loc(x), loc(0), int_0^x sing) on the real callables"""
-    l0 = float(rsl.loc(0.0, rsl.args["loc"])) if rsl.loc is not None else 0.0
-    lx = float(rsl.loc(x, rsl.args["loc"])) if rsl.loc is not None else 0.0
+    with np.errstate(all="ignore"):
+        l0 = float(np.real(rsl.loc(0.0, rsl.args["loc"]))) if rsl.loc is not None else 0.0
+    if not math.isfinite(l0):
+        # the delta coefficient is the limit x -> 0 of the local part; where the closed form cannot be
+        # evaluated at 0 itself (0 * log 0) take it next to 0
+        x0 = 1e-12
+        l0 = float(np.real(rsl.loc(x0, rsl.args["loc"])))
+        if rsl.sing is not None:
+            l0 += scipy.integrate.quad(lambda z: float(np.real(rsl.sing(z, rsl.args["sing"]))), 0.0, x0, epsabs=1e-14, epsrel=1e-12)[0]
+    lx = float(np.real(rsl.loc(x, rsl.args["loc"]))) if rsl.loc is not None else 0.0
     i = 0.0
     if rsl.sing is not None:
         i = scipy.integrate.quad(lambda z: float(rsl.sing(z, rsl.args["sing"])), 0.0, x, epsabs=1e-12, epsrel=1e-12, limit=300)[0]
@@ -50,7 +60,11 @@ def search_consistency(chk, sites, tol_exact=1e-7, tol_comp=1e-3):
                 vals = {nf: parts_at(by_nf[nf], x) for nf in nfs}
                 R = np.array([vals[nf][0] - vals[nf][1] + vals[nf][2] for nf in nfs])
                 S = np.array([abs(vals[nf][0]) + abs(vals[nf][1]) + abs(vals[nf][2]) for nf in nfs])
-                # total
+                # total; a part that is not a finite number (here or at x = 0, which defines the delta
+                # coefficient) has no residual at all: that is a failing case, not a passing one
+                if not (np.all(np.isfinite(R)) and np.all(np.isfinite(S))):
+                    worst, worst_at = float("inf"), dict(x=x, component="total", residual=[repr(v) for v in R.tolist()], scale=[repr(v) for v in S.tolist()], loc_at_0=[repr(vals[nf][1]) for nf in nfs])
+                    break
                 rel = float(np.max(np.abs(R) / (S + 1e-300)))
                 if rel > worst:
                     worst, worst_at = rel, dict(x=x, component="total", residual=R.tolist(), scale=S.tolist())
